@@ -47,12 +47,19 @@ pub struct Case {
     /// `parent` by the calls before it); treated like `self_parent`
     #[serde(default)]
     pub closing: Option<(u32, u32)>,
+    /// an annotate_* call (present term, new record) made after all others, where the number of records of its kind
+    /// has reached the documented limit of 65 535: the unchanged Builder accepts it (and the ontology can then not
+    /// be finished), so the history ends there; should it be rejected, it has to be without effect
+    #[serde(default)]
+    pub at_limit: Option<AnnOp>,
 }
 
 struct Run {
     ont: Result<Ontology, String>,
     parent_results: Vec<bool>,
     ann_results: Vec<bool>,
+    /// result of the call at the record limit
+    at_limit_ok: Option<bool>,
     /// result of the add_parent(x, x) call
     self_parent_ok: Option<bool>,
 }
@@ -87,7 +94,7 @@ fn execute(c: &Case, only_ok: bool, present: &BTreeSet<u32>) -> Result<Run, Stri
             self_parent_ok = Some(self_parent_ok.unwrap_or(false) || ok);
             if ok {
                 // not continued (see Case::self_parent)
-                return Run { ont: Err("history ends at an accepted add_parent call that closes a cycle".into()), parent_results, ann_results: vec![], self_parent_ok };
+                return Run { ont: Err("history ends at an accepted add_parent call that closes a cycle".into()), parent_results, ann_results: vec![], self_parent_ok, at_limit_ok: None };
             }
         }
         let mut b = b.connect_all_terms();
@@ -120,6 +127,19 @@ fn execute(c: &Case, only_ok: bool, present: &BTreeSet<u32>) -> Result<Run, Stri
             };
             ann_results.push(r);
         }
+        let mut at_limit_ok = None;
+        if let (Some(a), false) = (&c.at_limit, only_ok) {
+            let t = HpoTermId::from_u32(a.term.unwrap_or(0));
+            let ok = match a.kind as usize {
+                GENE => b.annotate_gene(GeneId::from(a.rec), &a.name, t).is_ok(),
+                OMIM => b.annotate_omim_disease(OmimDiseaseId::from(a.rec), &a.name, t).is_ok(),
+                _ => b.annotate_orpha_disease(OrphaDiseaseId::from(a.rec), &a.name, t).is_ok(),
+            };
+            at_limit_ok = Some(ok);
+            if ok {
+                return Run { ont: Err("history ends at an accepted call beyond the record limit".into()), parent_results, ann_results, self_parent_ok, at_limit_ok };
+            }
+        }
         let ont = match b.calculate_information_content() {
             Err(e) => Err(format!("calculate_information_content: {e}")),
             Ok(mut b) => {
@@ -133,7 +153,7 @@ fn execute(c: &Case, only_ok: bool, present: &BTreeSet<u32>) -> Result<Run, Stri
                 }
             }
         };
-        Run { ont, parent_results, ann_results, self_parent_ok }
+        Run { ont, parent_results, ann_results, self_parent_ok, at_limit_ok }
     })
 }
 
@@ -197,6 +217,14 @@ pub fn check(c: &Case, stats: &mut Stats) -> CheckResult {
         let exp = a.term.is_none_or(|t| present.contains(&t));
         ensure!(full.ann_results[i] == exp, format!("annotate-{}/result", KIND_NAMES[a.kind as usize]), "annotate_{}({}, {:?}, {:?}) returned {}", KIND_NAMES[a.kind as usize], a.rec, a.name, a.term, if full.ann_results[i] { "Ok" } else { "Err" });
     }
+    match (&c.at_limit, full.at_limit_ok) {
+        (Some(_), Some(true)) => {
+            stats.label("call-at-the-record-limit-accepted:history-ends");
+            return Ok(());
+        }
+        (Some(_), Some(false)) => stats.label("call-at-the-record-limit-rejected"),
+        _ => {}
+    }
     let facts = model_facts(c, &present);
     let model = Model::new(&facts);
     let roots = model.has(1) && model.has(118);
@@ -226,7 +254,7 @@ pub fn check(c: &Case, stats: &mut Stats) -> CheckResult {
     if let Some(d) = diffs.first() {
         let kind: String = d.what.split(' ').next().unwrap_or("").chars().take(20).collect();
         let failing_parent = c.parents.iter().any(|(p, ch)| !(present.contains(p) && present.contains(ch))) || full.self_parent_ok == Some(false);
-        let failing_ann = c.ann.iter().any(|a| a.term.is_some_and(|t| !present.contains(&t)));
+        let failing_ann = c.ann.iter().any(|a| a.term.is_some_and(|t| !present.contains(&t))) || full.at_limit_ok == Some(false);
         let cause = match (failing_parent, failing_ann) {
             (_, true) if ["gene", "omim", "orpha"].contains(&kind.as_str()) => "failed-annotate",
             (true, _) => "failed-add_parent",
@@ -445,7 +473,7 @@ fn strategy(tier: Tier) -> BoxedStrategy<Case> {
             } else {
                 None
             };
-            Case { terms, parents, ann, version: (version.0 % 10000, version.1, version.2), version_at, defaults, self_parent, closing }
+            Case { terms, parents, ann, version: (version.0 % 10000, version.1, version.2), version_at, defaults, self_parent, closing, at_limit: None }
         })
         .boxed()
 }
@@ -481,7 +509,7 @@ pub fn bulk_history(n: u32, sel: u32) -> Case {
         ann.push(AnnOp { kind: (k % 3) as u8, rec: 10 + k as u32, name: format!("rec{k} (rejected call)"), term: Some(absent[k % absent.len()]) });
         ann.push(AnnOp { kind: ((k + 1) % 3) as u8, rec: 100 + k as u32, name: format!("only rejected {k}"), term: Some(absent[(k + 2) % absent.len()]) });
     }
-    Case { terms, parents, ann, version: (2024, 3, 4), version_at: 1, defaults: false, self_parent: None, closing: None }
+    Case { terms, parents, ann, version: (2024, 3, 4), version_at: 1, defaults: false, self_parent: None, closing: None, at_limit: None }
 }
 
 /// A chain of `n` terms (ids ascending or descending with depth) with accepted and rejected annotate_* calls that
@@ -499,7 +527,7 @@ pub fn deep_history(n: u32, descending: bool) -> Case {
         ann.push(AnnOp { kind, rec: 10 + k as u32, name: format!("at depth {d} (rejected call)"), term: Some(999) });
         ann.push(AnnOp { kind: (kind + 1) % 3, rec: 200 + k as u32, name: "only rejected".into(), term: Some(5_000_000 + d) });
     }
-    Case { terms, parents, ann, version: (2025, 1, 2), version_at: 2, defaults: false, self_parent: None, closing: None }
+    Case { terms, parents, ann, version: (2025, 1, 2), version_at: 2, defaults: false, self_parent: None, closing: None, at_limit: None }
 }
 
 impl Property for C15 {
@@ -507,7 +535,7 @@ impl Property for C15 {
         "C15"
     }
     fn rule(&self) -> String {
-        "Generated call histories in the order the Builder typestates allow: new_term* (none at all in a few histories; duplicates, ids dense / sparse / borders / a run of consecutive ids with one or two holes) -> add_parent* over present and absent ids (present pairs keep the graph acyclic; absent ids are neighbours, holes inside the range of the present ids, far values, the borders 0 / 1 / 9_999_999, values >= 10^7 and near u32::MAX, and aliases of present ids under power-of-two masks / decimal moduli such as id + k*2^24; one history in eight closes with add_parent(x, x) or with the reverse of an accepted link or chain of two links: such a cycle-closing call is accepted on the unchanged tree, where the history then ends, and must be without effect if it is rejected) -> add_gene/add_*_disease and annotate_* over present and absent terms (failing calls carry a different record name; names of any length, some longer than the 255 bytes the binary format stores) -> calculate_information_content -> build_minimal / build_with_defaults, set_hpo_version in a generated typestate; 20-50 % of the calls fail by construction. Deterministic histories in their own processes: more than 65 535 new_term calls; chains of 300 (thorough 3 000) terms with ids ascending / descending with depth and accepted and rejected annotate_* calls at many depths. Stateful oracle: an interpreter of the history over plain sets predicts every Ok/Err; the built ontology is walked through the complete read API under catch_unwind (every handed-out id must resolve); its snapshot must equal the reference model of the successful calls AND the snapshot of the ontology built from the successful calls alone. evaluations = Builder calls. Non-trivial = >=1 failing add_parent with a present parent, >=1 failing annotate_*, and a later successful annotate on the same record; distinct by hash of the history.".into()
+        "Generated call histories in the order the Builder typestates allow: new_term* (none at all in a few histories; duplicates, ids dense / sparse / borders / a run of consecutive ids with one or two holes) -> add_parent* over present and absent ids (present pairs keep the graph acyclic; absent ids are neighbours, holes inside the range of the present ids, far values, the borders 0 / 1 / 9_999_999, values >= 10^7 and near u32::MAX, and aliases of present ids under power-of-two masks / decimal moduli such as id + k*2^24; one history in eight closes with add_parent(x, x) or with the reverse of an accepted link or chain of two links: such a cycle-closing call is accepted on the unchanged tree, where the history then ends, and must be without effect if it is rejected) -> add_gene/add_*_disease and annotate_* over present and absent terms (failing calls carry a different record name; names of any length, some longer than the 255 bytes the binary format stores) -> calculate_information_content -> build_minimal / build_with_defaults, set_hpo_version in a generated typestate; 20-50 % of the calls fail by construction. Deterministic histories in their own processes: more than 65 535 new_term calls; chains of 300 (thorough 3 000) terms with ids ascending / descending with depth and accepted and rejected annotate_* calls at many depths; 65 535 records of one kind and one more annotate call (accepted on the unchanged tree, where the history ends; without effect if it is rejected). Stateful oracle: an interpreter of the history over plain sets predicts every Ok/Err; the built ontology is walked through the complete read API under catch_unwind (every handed-out id must resolve); its snapshot must equal the reference model of the successful calls AND the snapshot of the ontology built from the successful calls alone. evaluations = Builder calls. Non-trivial = >=1 failing add_parent with a present parent, >=1 failing annotate_*, and a later successful annotate on the same record; distinct by hash of the history.".into()
     }
     fn assumptions(&self) -> Vec<String> {
         vec![
@@ -522,7 +550,7 @@ impl Property for C15 {
         }
     }
     fn required_labels(&self, _tier: Tier) -> Vec<&'static str> {
-        vec!["nontrivial", "failing-add_parent(present parent, absent child)", "failing-add_parent(absent parent, present child)", "failing-annotate", "duplicate-new_term", "absent-id-0", "build_with_defaults", "record-mentioned-only-by-failing-calls", "absent-id-equal-to-a-present-id-mod-2^24", "bulk>65535-terms", "add_parent(x,x)-accepted:history-ends", "cycle-closing-add_parent-accepted:history-ends", "chain>255-links", "record-name-longer-than-255-bytes", "absent-id-is-the-only-hole-of-a-run-of-present-ids", "failing-calls-without-any-term"]
+        vec!["nontrivial", "failing-add_parent(present parent, absent child)", "failing-add_parent(absent parent, present child)", "failing-annotate", "duplicate-new_term", "absent-id-0", "build_with_defaults", "record-mentioned-only-by-failing-calls", "absent-id-equal-to-a-present-id-mod-2^24", "bulk>65535-terms", "add_parent(x,x)-accepted:history-ends", "cycle-closing-add_parent-accepted:history-ends", "chain>255-links", "record-name-longer-than-255-bytes", "absent-id-is-the-only-hole-of-a-run-of-present-ids", "failing-calls-without-any-term", "call-at-the-record-limit-accepted:history-ends"]
     }
     fn run_generated(&self, tier: Tier, seed: u64, n: u64, stats: &mut Stats) -> Option<(Value, Failure)> {
         run_typed(strategy(tier), seed, n, stats, check)
@@ -539,6 +567,16 @@ impl Property for C15 {
             }
             return Ok(r);
         }
+        if let Some(b) = case.get("limit") {
+            // 65 535 records of one kind on two terms, then one more annotate call for a new record
+            let kind: u8 = serde_json::from_value(b.clone()).map_err(|e| e.to_string())?;
+            stats.cases += 1;
+            let terms = vec![(1u32, "All".to_string()), (118u32, "Phenotypic abnormality".to_string())];
+            let ann: Vec<AnnOp> = (0..65_535u32).map(|i| AnnOp { kind, rec: i + 1, name: format!("r{i}"), term: Some(if i % 2 == 0 { 118 } else { 1 }) }).collect();
+            let c = Case { terms, parents: vec![(1, 118)], ann, version: (2025, 6, 7), version_at: 0, defaults: false, self_parent: None, closing: None,
+                at_limit: Some(AnnOp { kind, rec: 70_000, name: "one too many".into(), term: Some(118) }) };
+            return Ok(check(&c, stats));
+        }
         if let Some(b) = case.get("deep") {
             let v: (u32, bool) = serde_json::from_value(b.clone()).map_err(|e| e.to_string())?;
             stats.cases += 1;
@@ -551,7 +589,7 @@ impl Property for C15 {
         replay_typed::<Case, _>(case, stats, check)
     }
     fn isolated_plans(&self, tier: Tier, seed: u64) -> Vec<Value> {
-        let mut out = vec![json!({"bulk": (65_560u32, (seed % 7) as u32)}), json!({"deep": (300u32, true)}), json!({"deep": (300u32, false)})];
+        let mut out = vec![json!({"bulk": (65_560u32, (seed % 7) as u32)}), json!({"deep": (300u32, true)}), json!({"deep": (300u32, false)}), json!({"limit": (seed % 3) as u8})];
         if tier == Tier::Thorough {
             out.push(json!({"bulk": (131_200u32, (seed % 5) as u32)}));
             out.push(json!({"deep": (3_000u32, true)}));
